@@ -477,6 +477,46 @@ func cliC13(scratch string, part *h.Partial) map[string]any {
 		cliCase{name: "internal via dep and call", files: map[string]string{"Taskfile.yml": tf}, args: []string{"user"}, wantExit: []int{0}, mustRun: []string{"H", "U"}, sig: "guard=internal pos=dep+call"},
 		cliCase{name: "internal --parallel", files: map[string]string{"Taskfile.yml": tf}, args: []string{"--parallel", "user", "hidden"}, wantExit: []int{202}, mustNot: []string{"H", "U"}, sig: "guard=internal pos=parallel-root"},
 	)
+	// internal through includes: an include marked internal makes every task of the included file internal, in the
+	// namespaced and in the flattened form, one and two include levels down; a task marked internal in an included file
+	// stays internal; the tasks remain usable through deps and calls
+	lib := "version: '3'\ntasks:\n  tool:\n    cmds:\n      - " + probe("T") + "\n  own:\n    internal: true\n    cmds:\n      - " + probe("O") + "\n"
+	for _, v := range []struct {
+		tag, incOpts, name, ownName string
+		depth2                       bool
+	}{
+		{"namespaced", "    internal: true\n", "lib:tool", "", false},
+		{"flattened", "    internal: true\n    flatten: true\n", "tool", "", false},
+		{"task-level", "", "", "lib:own", false},
+		{"task-level-flattened", "    flatten: true\n", "", "own", false},
+		{"namespaced-depth2", "    internal: true\n", "mid:lib:tool", "", true},
+		{"flattened-depth2", "    internal: true\n    flatten: true\n", "mid:tool", "", true},
+	} {
+		incl := "includes:\n  lib:\n    taskfile: ./lib.yml\n" + v.incOpts
+		files := map[string]string{"lib.yml": lib}
+		target := v.name
+		if target == "" {
+			target = v.ownName
+		}
+		local := strings.TrimPrefix(target, "mid:")
+		user := "  user:\n    deps: ['" + local + "']\n    cmds:\n      - task: '" + local + "'\n      - " + probe("U") + "\n"
+		userName := "user"
+		if v.depth2 {
+			files["mid.yml"] = "version: '3'\n" + incl + "tasks:\n" + user
+			files["Taskfile.yml"] = "version: '3'\nsilent: true\nincludes:\n  mid: ./mid.yml\ntasks:\n  top:\n    cmds:\n      - " + probe("top") + "\n"
+			userName = "mid:user"
+		} else {
+			files["Taskfile.yml"] = "version: '3'\nsilent: true\n" + incl + "tasks:\n" + user
+		}
+		mark := "T"
+		if v.name == "" {
+			mark = "O"
+		}
+		cases = append(cases,
+			cliCase{name: "internal include " + v.tag + " @root", files: files, args: []string{target}, wantExit: []int{202}, mustNot: []string{mark}, sig: "guard=internal pos=root include=" + v.tag},
+			cliCase{name: "internal include " + v.tag + " via dep and call", files: files, args: []string{userName}, wantExit: []int{0}, mustRun: []string{mark, "U"}, sig: "guard=internal pos=dep+call include=" + v.tag},
+		)
+	}
 	return runCliCases("C13", scratch, bin, cases, part)
 }
 
